@@ -150,9 +150,6 @@ Proof.
   lia.
 Qed.
 
-Lemma ip_address_good b : good 0 (ip_address b).
-Proof. unfold ip_address. destruct (_ || _). apply good_ret. Abort.
-
 (** TrafficSelector.parse: InvalidSyntax, or a selector; ip_address never sees a length other than 4 or 16 *)
 Lemma ts_addr_len_cases ty : ts_addr_len_parse ty = 4%N \/ ts_addr_len_parse ty = 16%N.
 Proof. unfold ts_addr_len_parse. destruct (N.eqb _ _); auto. Qed.
